@@ -1126,15 +1126,17 @@ pub fn get_limit(params: &EntityParams, prepared_query: &mut SingleQuery) -> Str
     }
 
     if let Some(skip) = &params.skip {
+        //the database engine accepts OFFSET only after a LIMIT: without 'first', every row is wanted
+        let no_limit = if query.is_empty() { "LIMIT -1" } else { "" };
         match skip {
             FieldValue::Variable(var) => {
                 let vars = prepared_query.add_param(String::from(var), false);
-                query.push_str(&format!(" OFFSET {}", vars));
+                query.push_str(&format!("{} OFFSET {}", no_limit, vars));
             }
             FieldValue::Value(val) => {
                 let val = val.as_i64().unwrap();
                 if val != 0 {
-                    query.push_str(&format!(" OFFSET {}", val));
+                    query.push_str(&format!("{} OFFSET {}", no_limit, val));
                 }
             }
         }
